@@ -35,6 +35,10 @@ def boot():
     if os.environ.get("PYTHONHASHSEED") != "0" and not os.environ.get("CMV_NO_REEXEC"):
         os.environ["PYTHONHASHSEED"] = "0"
         os.execv(sys.executable, [sys.executable, "-m", "cmv.main"] + sys.argv[1:])
+    import warnings
+
+    warnings.filterwarnings("ignore", category=SyntaxWarning)
+    warnings.filterwarnings("ignore", category=DeprecationWarning)
     src = os.path.join(REPO, "src")
     if src in sys.path:
         sys.path.remove(src)
